@@ -247,9 +247,9 @@ SPEC = {
     'deciding': ['mps.factor-equals-norm', 'mps.factor-times-new-equals-old', 'mps.site-isometries', 'mps.unit-norm-after', 'mps.bond-dims-bounded',
                  'mpo.factor-equals-norm', 'mpo.factor-times-new-equals-old', 'mpo.site-isometries', 'mps.factor-nonnegative', 'mpo.factor-nonnegative'],
     'workloads': [
-        Workload('mps', mps_case, quick=1200, thorough=40000),
-        Workload('mpo', mpo_case, quick=500, thorough=15000),
-        Workload('insitu', insitu_case, quick=80, thorough=2000),
+        Workload('mps', mps_case, quick=2400, thorough=400000),
+        Workload('mpo', mpo_case, quick=1000, thorough=150000),
+        Workload('insitu', insitu_case, quick=80, thorough=10000),
     ],
     'shards': {'quick': 1, 'thorough': 16},
     'assumptions': ['dense contraction in pvm/refs.py; tolerance 1e-10 relative (1e-4 for single-precision tensors)'],
